@@ -194,7 +194,8 @@ pub fn scenario(ctx: &Ctx, idx: u64) -> Report {
             let registry = snap_before;
             live = registry.keys().copied().collect();
             live.sort();
-            let Some(r) = replies.first().and_then(|k| k.as_reply()) else {
+            // (a table node may also be sent a query of the node's own in the same window: take the reply)
+            let Some(r) = replies.iter().find_map(|k| k.as_reply()) else {
                 report.cross("C05", "no-reply", "serving node did not answer a find_node/get_peers probe", info.clone());
                 continue;
             };
